@@ -43,7 +43,7 @@ func main() {
 	}
 	for _, c := range []string{"A:polls", "A:submissions", "A:delivered-accepted", "A:must:first-price", "A:must:slot-reached", "A:must:status-change",
 		"A:must:deviation>=threshold", "A:mustnot:cooldown", "A:deviation-exactly-at-threshold", "A:deviation-one-bp-below-threshold-not-forced",
-		"A:unavailable-held-back", "A:unavailable-sent-near-deadline", "A:feed-list-changed", "A:feed-removed-from-list", "A:interval-shrunk-for-current-feed", "A:slot-range-checked",
+		"A:unavailable-held-back", "A:unavailable-sent-near-deadline", "A:feed-list-changed", "A:feed-removed-from-list", "A:interval-shrunk-for-current-feed", "A:huge-price-moved-beyond-deviation", "A:slot-range-checked",
 		"B:submissions-handed-off", "B:finished:success", "B:finished:gave-up", "B:fault:broadcast-error", "B:fault:simulate-error", "B:fault:tx-never-found",
 		"B:fault:nonzero-code", "B:released-at-quiescence"} {
 		run.Require(c, 1)
